@@ -206,3 +206,28 @@ static struct qb_log_callsite *verif_build_cs(const char *function, const char *
 	cs->message_id = NULL;
 	return cs;
 }
+
+/* a stored filter (heap objects throughout, as _log_filter_store creates them, so the real code may free them).
+ * text is "*" (star != 0) or the two-character string {c0, c1}; regex_slot >= 0 attaches a compiled regex whose
+ * regexec result is verif_regex_result[regex_slot]. */
+static struct qb_log_filter *verif_new_filter(enum qb_log_filter_conf c, enum qb_log_filter_type type, int star, char c0, char c1,
+					     uint8_t high, uint8_t low, uint32_t new_value, int regex_slot)
+{
+	struct qb_log_filter *f = verif_new(sizeof(*f));
+	f->conf = c;
+	f->type = type;
+	f->text = verif_new(3);
+	f->text[0] = star ? '*' : c0;
+	f->text[1] = star ? 0 : c1;
+	f->text[2] = 0;
+	f->high_priority = high;
+	f->low_priority = low;
+	f->new_value = new_value;
+	f->regex = NULL;
+	if (regex_slot >= 0) {
+		f->regex = verif_new(sizeof(regex_t));
+		verif_regex_obj[regex_slot] = f->regex;
+	}
+	qb_list_init(&f->list);
+	return f;
+}
